@@ -16,8 +16,9 @@ constructor/f32).
 Tolerance grid {0,.01,.1,.5}^3 (objective, relative-resource, absolute-resource): every 2-row
 table over value ladders placed just inside / just outside the (1+t) buckets of each
 tolerance, 2-row tables with differing tile shapes (both entry points), 3-row tables over
-2-value ladders.  Thorough: <= 3 rows x 9 combinations, 4 rows x 2 entries, 9-value ladders,
-3-row 3-value ladders, both entry points on the 3-row tolerance families.
+2-value ladders.  Thorough: <= 3 rows x 9 combinations, 4 rows (makepareto only), 9-value
+energy ladder, 3-row 3-value ladders.  PmappingDataframe.make_pareto is exercised on the full
+tolerance grid through the T-n2-split family (it only forwards its arguments to makepareto).
 
 Oracle: mc/ref/pareto_table.py (built on the O(n^2) dominance of mc/ref/pareto.py).
 Zero tolerance: no strictly dominated row (same fused-loop tile shape) is kept and every
@@ -40,6 +41,8 @@ Self-test (mutants on a scratch copy, VERIF_REPO=/tmp/af-mut-c12, quick tier):
   M5 PmappingDataframe.make_pareto passes ``objective_tolerance=resource_usage_tolerance``
        -> CAUGHT (96, pdf-make_pareto/*/drops-uncovered)
   M6 makepareto: split columns get goal "min" instead of "diff" -> CAUGHT (3552)
+  (counts from a slightly larger earlier quick space; M2 re-run on the final quick space:
+  still CAUGHT, 144)
 """
 
 from __future__ import annotations
@@ -201,6 +204,7 @@ PLANS = {
     "Z": [("makepareto", v, "f64") for v in VARIANTS] + [
         ("makepareto", "full", "f32"), ("pdf-ctor", "full", "f32"), ("pdf-make_pareto", "full", "f64")],
     "Zs": [("makepareto", "full", "f64"), ("pdf-ctor", "full", "f32")],
+    "Z1": [("makepareto", "full", "f64")],
     "T": [("makepareto", "full", "f64")],
     "Tb": [("makepareto", "full", "f64"), ("pdf-make_pareto", "full", "f32")],
 }
@@ -294,8 +298,8 @@ def run(ctx):
     if q:
         fam["Z-2val-n3"] = (table_tree([3], A2), "Zs")
     else:
-        fam["Z-2val-n4"] = (table_tree([4], A2), "Zs")
-        fam["Z-3val-n3"] = (table_tree([3], ([1, 2, 4], [1, 2, 4], [0.25, 0.5], [1, 2])), "Zs")
+        fam["Z-2val-n4"] = (table_tree([4], A2), "Z1")
+        fam["Z-3val-n3"] = (table_tree([3], ([1, 2, 4], [1, 2, 4], [0.25, 0.5], [1, 2])), "Z1")
     tree, body = union(fam)
     ctx.explore("zero-tolerance", tree, body, shard_depth=4, distinct_by_construction=True)
 
@@ -305,25 +309,25 @@ def run(ctx):
         T3 = ([1, 1.09], [1], [0.25, 0.3], [1])
     else:
         E2 = [0.75, 0.92, 0.993, 1, 1.004, 1.008, 1.09, 1.3, 2]
-        L2 = [1, 1.09]
+        L2 = [1]
         R2 = [0, 0.25, 0.254, 0.5, 1.0]
         T3 = ([0.92, 1, 1.09], [1], [0.25, 0.254, 0.5], [1])
     fam = {"T-n2": (table_tree([2], (E2, L2, R2, [1]), TOL_GRID), "T"),
            "T-n2-split": (table_tree([2], ([1, 1.004], [1], [0.25, 0.254], [1, 2]), TOL_GRID), "Tb"),
-           "T-n3": (table_tree([3], T3, TOL_GRID), "T" if q else "Tb")}
-    if q:
-        fam["T-n2-2obj"] = (table_tree([2], ([1, 1.004], [1, 1.09], [0.25], [1]), TOL_GRID), "T")
-    else:
-        fam["T-n3-2val"] = (table_tree([3], ([1, 1.09], [1, 1.004], [0.25, 0.3], [1]), TOL_GRID), "Tb")
+           "T-n3": (table_tree([3], T3, TOL_GRID), "T"),
+           "T-n2-2obj": (table_tree([2], ([1, 1.004], [1, 1.09], [0.25], [1]), TOL_GRID), "T")}
+    if not q:
+        fam["T-n3-2val"] = (table_tree([3], ([1, 1.09], [1, 1.004], [0.25, 0.3], [1]), TOL_GRID), "T")
     tree, body = union(fam)
     ctx.explore("tolerance-grid", tree, body, shard_depth=4, distinct_by_construction=True)
     ctx.bound(Z="rows<=%s over 2-value alphabets x %d variant/entry combinations%s; rows=2 over 3-value alphabets%s"
                 % (2 if q else 3, len(PLANS["Z"]), " and rows=3 x 2 entries" if q else "",
-                   " (tile shape 2-valued, 2 entries)" if q else "; rows=4 over 2-value alphabets and rows=3 over 3x3x2x2 (2 entries)"),
+                   " (tile shape 2-valued, 2 entries)" if q else "; rows=4 over 2-value alphabets and rows=3 over 3x3x2x2 (makepareto only)"),
               variants=VARIANTS, T_rows2={"energy": E2, "latency": L2, "reservation": R2},
               T_rows3=[list(a) for a in T3],
               tolerance_grid="{0,0.01,0.1,0.5}^3 (objective, relative resource, absolute resource)",
-              T_entries={"T-n2": "makepareto", "T-n2-split" + ("" if q else "/T-n3"): "makepareto + PmappingDataframe.make_pareto"})
+              T_entries={"T-n2/T-n3/T-n2-2obj": "makepareto",
+                         "T-n2-split": "makepareto + PmappingDataframe.make_pareto"})
     ctx.note("n_iterations column = 8 // tile-shape column (inside the contract stated in makepareto); note that "
              "is_n_iterations_col() only matches 'fused_loop<SEP>n_iterations...' while real tables name these "
              "columns 'fused_loop<SEP><einsum><SEP>n_iterations<SEP>k', so in real runs they act as split columns")
